@@ -19,6 +19,7 @@ package main
 import (
 	"fmt"
 	"runtime"
+	"time"
 
 	"verif/vkit"
 )
@@ -41,12 +42,28 @@ func main() {
 		maxCap := r.Scale(8, 12)
 		maxN := r.Scale(7, 10)
 
-		regressions(r)
-		nStates := dequeSystematic(r, maxCap, workers)
-		heapSystematic(r, maxN, workers)
-		queueSystematic(r, maxN, workers)
-		twoIterators(r, r.Scale(4, 6), r.Scale(4, 5), workers)
-		multi(r, r.Scale(6000, 150000), workers)
+		// the counter-wrap scenarios are single long calls; they run beside the other groups
+		wrapDone := make(chan struct{})
+		go func() { defer close(wrapDone); wrap(r, 2) }()
+
+		// wall time per group: information for the reader of the evidence only, never judged
+		groupWall := map[string]float64{}
+		timed := func(name string, f func()) {
+			t0 := time.Now()
+			f()
+			groupWall[name] = float64(int(time.Since(t0).Seconds()*10+0.5)) / 10
+		}
+		nStates := 0
+		timed("regress", func() { regressions(r) })
+		timed("deque", func() { nStates = dequeSystematic(r, maxCap, workers) })
+		timed("heap", func() { heapSystematic(r, maxN, workers) })
+		timed("queue", func() { queueSystematic(r, maxN, workers) })
+		timed("two", func() { twoIterators(r, r.Scale(4, 6), r.Scale(4, 5), workers) })
+		timed("multi", func() { multi(r, r.Scale(6000, 150000), workers) })
+		timed("rewind", func() { rewind(r, workers) })
+		timed("zerosize", func() { zeroSize(r, workers) })
+		timed("waiting for wrap", func() { <-wrapDone })
+		r.SetExtra("group_wall_s", groupWall)
 
 		// Coverage floors (all reached deterministically).
 		var reached int64
@@ -60,6 +77,20 @@ func main() {
 		r.Floor("yields checked against the snapshot after a mutating call", r.Table("obligations", "deque: yield after a mutating call checked against the snapshot")+
 			r.Table("obligations", "heap: yield after a mutating call checked against the snapshot")+
 			r.Table("obligations", "queue: yield after a mutating call checked against the snapshot"), 200)
+		for _, k := range []string{"deque", "heap", "queue"} {
+			r.Floor(k+": counter rewind scenarios", r.Table("scenarios", k+" (counter rewind: drained to empty, resized while empty, refilled)"), 500)
+		}
+		r.Floor("zero-size deques: wrapped rings with more than MaxInt/2 slots iterated", r.Table("zero-size deques", "wrapped ring with more than MaxInt/2 slots, len 3")+
+			r.Table("zero-size deques", "wrapped ring with more than MaxInt/2 slots, len 4")+r.Table("zero-size deques", "wrapped ring with more than MaxInt/2 slots, len 5"), 10)
+		wrapExps := []int{8, 16, 24}
+		if r.Thorough() {
+			wrapExps = append(wrapExps, 32)
+		}
+		for _, e := range wrapExps {
+			for _, k := range []string{"heap", "queue"} {
+				r.Floor(fmt.Sprintf("%s: 2^%d modifications between two Next calls", k, e), r.Table("counter wrap: modifications between two Next calls", fmt.Sprintf("%s: 2^%d", k, e)), 1)
+			}
+		}
 		for _, name := range regressionNames {
 			r.Floor("regression scenario "+name, r.Table("regression scenarios", name), 1)
 		}
@@ -68,7 +99,8 @@ func main() {
 			r.SetExtra("exhaustive_over", fmt.Sprintf("deque: every reachable abstract state with cap <= %d (%d states, each by 3 construction routes) x position 0..len x every operation of the list (Set at every index, Grow/Shrink on both sides of the realloc threshold); "+
 				"heap: sizes 0..%d x 4 fill patterns x 4 constructors x position x {Push x3, Pop, Grow x3, Shrink x3, reads}; "+
 				"queue: sizes 0..%d x 4 fill patterns x 3 constructors x position x {Update new key x3, Update of every key x {to top, lower, equal, higher, to bottom}, Remove of every key and of an absent one, Pop, Grow x3, reads}; "+
-				"random multi-operation scenarios are sampled on top", maxCap, nStates, maxN, maxN))
+				"on top: scripted families (counter rewind: g = 1..8 modifications x 3 preludes x consumed 0/1/all x drain to empty x {Shrink(0), Shrink(1), Grow(0), Grow(5), nothing} x 4 refill patterns of 12 steps, polled after every step, and polled once after j = 0..12 steps; "+
+				"zero-size elements: ring of MaxInt, MaxInt-1, MaxInt/2+{0,1,2,1000} slots x 1..3 PushFront x 0..4 PushBack x position x operation; counter wrap: 2^8, 2^16, 2^24 (thorough also 2^32) modifications between two Next calls) and sampled random multi-operation scenarios", maxCap, nStates, maxN, maxN))
 		}
 	})
 }
